@@ -849,6 +849,11 @@ class CompositeEnvelope:
             CompositeEnvelope._instances[self.uid] = []
         CompositeEnvelope._instances[self.uid].append(self)
         self.update_composite_envelope_pointers()
+        # Product states taken over from merged composite envelopes now belong to
+        # this container and their positions in it may have changed
+        for product_state in ce_container.states:
+            product_state.container = ce_container
+        ce_container.update_all_indices()
 
     def __repr__(self) -> str:
         return (
